@@ -1,0 +1,22 @@
+//go:build !verif
+// +build !verif
+
+package spg
+
+// Verification hooks (see verif_on.go). With the "verif" build tag off, which is
+// the default, every hook is an empty or identity function that the compiler
+// inlines away: shipped behaviour is unchanged.
+
+func verifNoteDraw(n uint32) {}
+
+func verifOrderChars(c charList) charList { return c }
+
+func verifOrderWords(w []string) []string { return w }
+
+func verifVisitBegin(unique map[string]bool) {}
+
+func verifVisit(w string) bool { return true }
+
+func verifVisitMore() bool { return false }
+
+func verifYield(site string) {}
